@@ -12,6 +12,8 @@ Everything here works on the parsed program only (ast / CFG); nothing is importe
 * `reaching(f, name, at)`  -- reaching definitions of `name` at CFG node `at` ('param' included)
 * `impure(prog, f, expr)`  -- expression contains a call whose value differs per evaluation
 * `calls_flow(f, expr, at)`-- like calls_deep but follows only the definitions that reach CFG node `at`
+* `expand_at(f, expr, at)` -- like expand, but flow-sensitive: a local is substituted by the *one* definition that
+                              reaches CFG node `at` (survives `tmp = <expr>; return tmp` repeated on several branches)
 * `clone(node)`            -- structural AST copy that does not follow the engine's `_parent` back-pointers
                               (copy.deepcopy on an engine AST copies the whole module through `_parent`)
 """
@@ -298,3 +300,52 @@ def calls_flow(f: Func, expr: ast.AST, at: int, depth: int = 5, _seen: frozenset
                 for v in vals:
                     out.extend(calls_flow(f, v, d, depth - 1, _seen | {(n.id, at)}))
     return out
+
+
+# --------------------------------------------------------------------------- flow-sensitive substitution
+
+
+def def_value(f: Func, name: str, d: int):
+    """The expression bound to local `name` by CFG node `d` (plain / annotated assignment to the bare name, or a
+    walrus evaluated at that node); None for any other kind of binding (tuple target, loop, with, augmented)."""
+    node = f.cfg.nodes[d]
+    a = node.ast
+    if node.kind == "stmt" and isinstance(a, ast.Assign):
+        if len(a.targets) == 1 and isinstance(a.targets[0], ast.Name) and a.targets[0].id == name:
+            return a.value
+        return None
+    if node.kind == "stmt" and isinstance(a, ast.AnnAssign):
+        return a.value if isinstance(a.target, ast.Name) and a.target.id == name else None
+    if node.kind in ("iter", "with_enter") or (node.kind == "stmt" and isinstance(a, ast.AugAssign)):
+        return None
+    vals = [x.value for x in node.walk() if isinstance(x, ast.NamedExpr) and x.target.id == name]
+    return vals[0] if len(vals) == 1 else None
+
+
+def expand_at(f: Func, expr: ast.AST, at: int, depth: int = 5, _seen: frozenset = frozenset()) -> ast.AST:
+    """Copy of `expr` (evaluated at CFG node `at`) in which every local with exactly one reaching definition at `at`
+    -- a plain assignment or walrus, not the parameter value -- is replaced by the assigned expression, recursively
+    (the definition's own operands are expanded at the defining node).  Names bound by a comprehension inside
+    `expr` are left alone."""
+    comp_bound = {
+        n.id
+        for c in [expr, *ast.walk(expr)]
+        if isinstance(c, ast.comprehension)
+        for n in ast.walk(c.target)
+        if isinstance(n, ast.Name)
+    }
+
+    class T(ast.NodeTransformer):
+        def visit_Name(self, n: ast.Name):
+            if isinstance(n.ctx, ast.Load) and depth > 0 and n.id not in comp_bound and (n.id, at) not in _seen:
+                ds = reaching(f, n.id, at)
+                if len(ds) == 1 and ds[0] != "param":
+                    v = def_value(f, n.id, ds[0])
+                    if v is not None:
+                        return expand_at(f, v, ds[0], depth - 1, _seen | {(n.id, at)})
+            return n
+
+        def visit_Await(self, n: ast.Await):
+            return self.visit(n.value)
+
+    return T().visit(clone(expr))
